@@ -38,6 +38,8 @@ ASSUMPTIONS = [
     'T[Invoke(f)], T.m(Spec(f))), and glom-detected failures, below chains of constructs; siblings of the chain are fixed '
     'per construct variant',
     'classes that cannot be subclassed (metaclass / __init_subclass__ tricks) are not in the catalogue',
+    'StopIteration below the lazy Iter() construct or raised by a generator target is converted to RuntimeError by '
+    'Python itself (PEP 479) and left out',
     'top-level defaults tried: opaque object, None, a list, a dict holding a T expression and a list, T itself; '
     'identity of the returned default is what is judged',
     'TLC, the Json community module and the probe nodes (checked to be transparent by probe-less re-runs) are trusted',
@@ -62,10 +64,12 @@ def check_catalogue(leaf):
     if cid in _CAT_OK or leaf['kind'] == 'glomdoc':
         return
     m = W.measure(W.CATALOGUE[cid](), cid, leaf['kind'])
-    for k in ('anc', 'exc', 'glom', 'kind'):
+    for k in ('anc', 'exc', 'glom', 'kind', 'truthy'):
         if m[k] != leaf[k]:
             raise vlib.MachineryError('catalogue drift for %s: %s measured %r, spec %r' % (cid, k, m[k], leaf[k]))
-    if (not m['glom'] and m['exc'] and m['rec'] != leaf['rec']) or (m['glom'] and m['cp'] != leaf['cp']):
+    # (how copy.copy treats a subclass of a library class is the library's business: judged by the laws)
+    if (not m['glom'] and m['exc'] and m['rec'] != leaf['rec']) or \
+            (m['glom'] and cid not in W.LIBSUB and m['cp'] != leaf['cp']):
         raise vlib.MachineryError('catalogue drift for %s: measured %r, spec %r' % (cid, m, leaf))
     _CAT_OK[cid] = True
 
@@ -171,7 +175,8 @@ def worker(states):
 
 # ---- code -> spec -------------------------------------------------------------------------------
 BASES = [(Exception,), (ValueError,), (KeyError,), (IndexError,), (LookupError,), (OSError,), (TypeError,),
-         (GlomError,), (GlomError, ValueError), (glom.MatchError,), (BaseException,), (ZeroDivisionError,)]
+         (GlomError,), (GlomError, ValueError), (glom.MatchError,), (BaseException,), (ZeroDivisionError,),
+         (glom.FoldError,), (glom.BadSpec,)]
 CTORS = ['plain', 'keep', 'attrs', 'shrink', 'grow', 'dbl', 'kwonly', 'raise2nd', 'idem', 'copy', 'opt']
 
 
@@ -246,6 +251,11 @@ def synth(rng):
             super(cls_box[0], self).__init__(p if q is None else (p, q))
         ns['__init__'] = __init__
         mk = (lambda cls: cls(a, b)) if rng.random() < 0.5 else (lambda cls: cls(a))
+    if rng.random() < 0.15:      # falsy instances
+        if rng.random() < 0.5:
+            ns['__len__'] = lambda self: 0
+        else:
+            ns['__bool__'] = lambda self: False
     cls_box = [None]
     cls_box[0] = type('R_%s' % ctor, bases, ns)
     desc = '%s(%s)' % (ctor, ','.join(b_.__name__ for b_ in bases))
@@ -276,7 +286,7 @@ def rand_ctx(rng):
 
 
 KW_DEFAULTS = ['absent', 'obj', 'none', 'list', 'dictT', 't']
-KW_SKIPS = ['absent', 'exact', 'other', 'tuple', 'tuple_non', 'glomerror', 'exception', 'keyerror', 'base']
+KW_SKIPS = ['absent', 'exact', 'other', 'tuple', 'tuple_non', 'glomerror', 'exception', 'keyerror', 'base', 'empty']
 
 
 def rand_row(rng):
@@ -305,7 +315,7 @@ def rand_row(rng):
         w = W.World(ctxs, leaf, None, how)
     else:
         w = W.World(ctxs, dict(id=cid, kind='user'), make_exc, how)
-        leaf = W.measure(w.inj, cid, 'builtin' if cid in ('Exception', 'ValueError', 'KeyError', 'IndexError', 'TypeError', 'Os2', 'Os3', 'Uni5', 'BKbd') else 'user')
+        leaf = W.measure(w.inj, cid, 'builtin' if cid in ('Exception', 'ValueError', 'KeyError', 'IndexError', 'TypeError', 'StopIter', 'Os2', 'Os3', 'Uni5', 'BKbd') else 'user')
         w.leaf = leaf
     out = w.run(kw)
     evs = w.events()
@@ -313,6 +323,9 @@ def rand_row(rng):
         if w.first is None:
             raise vlib.MachineryError('glom leaf %s did not fail' % cid)
         leaf = W.measure(w.first, cid, 'glomdoc')
+    # StopIteration through a generator frame (Iter, generator target): Python's own conversion
+    if cid == 'StopIter' and any((c['k'] == 'pass' and c['v'] == 'iter') or c['k'] == 'geniter' for c in ctxs):
+        return None
     # Not over a passing child: outside the universe
     for e in evs:
         if e['r']['st'] == 'value' and e['lvl'] >= 1 and ctxs[e['lvl'] - 1]['k'] == 'not':
@@ -383,7 +396,8 @@ def corrupted_row_rejected(check, rows):
     check.extra['corrupted_row_rejected'] = True
 
 
-MUTANTS = {'arg_in_guard': 'TransparentLaw', 'default_arg_val': 'InvDefaultSelective', 'iter_wraps': 'CreatedAreDocumented', 'copy_unguarded': 'InvClassKept', 'ctor_rerun': 'InvClassKept', 'skip_after_wrap': 'InvDefaultSelective', 'default_none_absent': 'InvDefaultSelective',
+MUTANTS = {'falsy_swallowed': 'InvClassKept', 'copy_hardcodes_base': 'InvClassKept',
+           'falsy_skip_omitted': 'InvDefaultSelective', 'arg_in_guard': 'TransparentLaw', 'default_arg_val': 'InvDefaultSelective', 'iter_wraps': 'CreatedAreDocumented', 'copy_unguarded': 'InvClassKept', 'ctor_rerun': 'InvClassKept', 'skip_after_wrap': 'InvDefaultSelective', 'default_none_absent': 'InvDefaultSelective',
            'debug_copies': 'InvDebug', 'wrap_glom_only': 'InvClassKept', 'wrap_no_fallback': 'InvClassKept',
            'or_catches_all': 'PassThroughLaw'}
 
@@ -414,7 +428,7 @@ def main(tier, seed):
     # (1)+(2) TLC checks every law on the transcribed mechanism (MC_C04.cfg) while exploring the
     # behaviours; the same run is dumped and every behaviour replayed into the real library
     runs = {'quick': [(0, 0, True, 'full'), (1, 1, True, 'mid'), (2, 2, False, 'small')],
-            'thorough': [(0, 1, True, 'full'), (2, 2, True, 'small'), (3, 3, False, 'small')]}[tier]
+            'thorough': [(0, 1, True, 'full'), (2, 2, True, 'small'), (3, 3, False, 'tiny')]}[tier]
     acts, pending = {}, []
     total = dict(cases=0, agree=0, excluded=0)
     for (mind, maxd, rich, kwmode) in runs:
@@ -446,7 +460,7 @@ def main(tier, seed):
     if pending:   # outcome differs from the mechanism's prediction: let the laws decide (violation or drift)
         judge_rows(check, pending, 'replay-mismatch', stats)
     # (3) code -> spec
-    rows = record(check, {'quick': 8000, 'thorough': 80000}[tier], seed, stats)
+    rows = record(check, {'quick': 8000, 'thorough': 60000}[tier], seed, stats)
     _t('record')
     check.extra['drift'] = stats.get('drift', 0)
     corrupted_row_rejected(check, rows)
